@@ -86,11 +86,29 @@ def main(out):
     t.unitcell_vectors = np.tile(np.diag([6.0, 6.5, 7.0]).astype(np.float32), (t.n_frames, 1, 1))
     REF.append(md.Trajectory(t.xyz[4:5].copy(), t.topology))
     perm = [3, 7, 0, 8, 1, 5, 2, 6, 4]
+    # a second trajectory for the periodic analyses: rectangular and triclinic cells take turns from frame to frame and every
+    # seventh atom is moved by lattice vectors of its own frame's cell, so that the minimum image really needs each frame's own
+    # (off-diagonal) box: a frame's result may not depend on the shapes of the OTHER frames' cells
+    tp = md.Trajectory(t.xyz.copy(), t.topology)
+    L = np.tile(np.array([6.0, 6.5, 7.0], dtype=np.float32), (t.n_frames, 1)) + 0.1 * np.arange(t.n_frames, dtype=np.float32)[:, None]
+    A = np.tile(np.array([90.0, 90.0, 90.0], dtype=np.float32), (t.n_frames, 1))
+    A[1::2] = np.array([75.0, 100.0, 110.0], dtype=np.float32)
+    tp.unitcell_lengths = L; tp.unitcell_angles = A
+    V = tp.unitcell_vectors.astype(np.float64)
+    rsp = np.random.RandomState(5)
+    xp = tp.xyz.astype(np.float64)
+    for f in range(tp.n_frames):
+        idx = np.arange(f % 7, tp.n_atoms, 7)
+        xp[f, idx] += rsp.randint(-1, 2, size=(len(idx), 3)) @ V[f]
+    tp.xyz = xp.astype(np.float32)
+    MIXED = ("distances", "displacements", "angles", "dihedrals", "phi", "chi1", "contacts_closest", "contacts_ca", "wernet_nilsson", "neighbors", "neighborlist")
     import os
     if os.environ.get("HISTORY") == "1":
         prelude()
     res = {}
-    for name, f in functions().items():
+    fs = functions()
+    jobs = [(name, f, t) for name, f in fs.items()] + [(name + "@mixedcells", fs[name], tp) for name in MIXED]
+    for name, f, t in jobs:
         if f is None:
             continue
         try:
